@@ -14,6 +14,15 @@ C={
   "Generated TTL-heavy histories with the clock frozen at expiry-1/expiry/expiry+1 ms; every frame that no retention rule can have touched must be returned by every path after every step (three-valued model for asynchronous GC). Sampling, not proof.",HIST_NOTE),
  "C09":("exploration","model-based history testing, three-valued retention model, frozen virtual clock, tail follower",
   "Generated TTL-heavy histories; ephemeral frames reach the open follower and are never stored, expired frames never appear in stream reads and are gone after read+drain, head:N topics hold at most the N newest after a drain. Sampling, not proof.",HIST_NOTE),
+ "C02":("exploration","schedule exploration: generated delay schedules at append sync points over multi-writer/poller/follower scenarios, history-invariant oracle on the event log; hook-free stress as second detector",
+  "Generated scenarios (2-4 appender threads, last-id pollers, tail and from-start followers, 3 contexts) run inside one executor under generated delays at the id-assignment / commit / broadcast steps of append; oracle: each poller's concatenated results equal the final stream in its scope (a frame becoming visible below an observed id shows as a frame never seen), every delivery sequence strictly increasing and complete. One case in ten is a plain 4-8 writer stress without hooks. Sampling, not proof.",
+  "interleavings are sampled at the granularity of the verif feature's sync points (delays of 0.2-20 ms dominate natural jitter) plus a hook-free stress; no exhaustive schedule enumeration; oracles are evaluated on the observable event log only"),
+ "C03":("exploration","schedule exploration: generated delay schedules at read and append sync points across the history->live hand-off, exact expectation from the event log",
+  "One follower per scenario over histories of 0 to 300 frames (past the 100-slot delivery buffer), every start position and scope, 1-3 appender threads emitting stored and ephemeral frames before/during/after the replay, delays at the subscribe / per-delivery / threshold / done / live-receive steps; oracle: exactly the frames in scope after the start position plus everything appended after the subscription, once each, increasing; exactly one threshold, after everything that existed when the read began. One known finding (ephemeral frame lost during replay) is tolerated by exact signature. Sampling, not proof.",
+  "interleavings are sampled at the granularity of the verif feature's sync points (delays of 0.2-20 ms dominate natural jitter) plus a hook-free stress; no exhaustive schedule enumeration; oracles are evaluated on the observable event log only; frames appended while the read() call itself is in progress are undetermined"),
+ "C11":("exploration","generated follow-option combinations and consumer speeds (incl. lagging past the 1024-frame broadcast buffer) with bounded-response oracle for stream end",
+  "Generated readers (limit vs history size, follow/heartbeat/tail/last-id/context), live appends after the read and slow consumers that fall more than 1124 frames behind; oracle: exactly the first n matching frames then the stream ends (closed within 3 s), thresholds and pulses only where asked and never stored or seen by another subscriber, lagging streams deliver a gap-free prefix and end. Sampling, not proof.",
+  "interleavings are sampled at the granularity of the verif feature's sync points (delays of 0.2-20 ms dominate natural jitter) plus a hook-free stress; no exhaustive schedule enumeration; oracles are evaluated on the observable event log only; stream end is checked as bounded response (3 s against microsecond latencies)"),
  "C04":("fault_enumeration","crash-point injection (LD_PRELOAD syscall-level kill and power-loss images) over generated workloads, reference model + cross-path oracle after reopen",
   "Generated workloads run in a process with an LD_PRELOAD shim that numbers every file-system mutation under the store directory and SIGKILLs the process at a chosen one, before or after the call, as a process-kill image or as a power-loss image (journal bytes since the last fsync zeroed except a torn prefix). quick samples one event per workload (640 images), thorough additionally enumerates every event x {before, after} for 160 workloads. The store is reopened in a fresh process and checked: reopens; acknowledged operations reflected; in-flight operation all-or-nothing; by-id/all-stream/context-stream/head agreement; nothing unsent; content of visible frames present and hashing correctly (kill images); still writable. Enumeration of the interposed events, not of all possible disk states.",
   "granularity = libc call; renames done by raw syscalls (tempfile/rustix inside the CAS library) are not interposed; power loss is modelled for fjall journal files only; event numbers shift between runs (background threads), the oracle depends only on acknowledgements"),
